@@ -14,7 +14,7 @@ RULE = ('(policy, peer) pairs evaluated by the real Policy.evaluate on a real SS
         '(kex universe contains the strict-kex marker), all 4 flag combinations, all 16 optional-host-key subsets, size/CA/modulus maps over {absent,1024,2048,3072,4096}, '
         'field pairs jointly over a reduced universe, random large instances over database names, and policy files run through the CLI (-P) against scripted peers; '
         'a case (batch) is non-trivial when it contained at least one passing and one failing pair; distinct = distinct batch specifications')
-REQUIRED = {'evaluations': 20000, 'model_pass': 500, 'model_fail': 500, 'metamorphic_checks': 200, 'cli_runs': 20}
+REQUIRED = {'cli_multi_entries': 10, 'evaluations': 20000, 'model_pass': 500, 'model_fail': 500, 'metamorphic_checks': 200, 'cli_runs': 20}
 ASSUMPTIONS = ['don\'t-care where the statement is silent: compression under subset mode; an empty peer list under subset mode (optional host keys give no exemption under subset mode: the statement mentions them for exact mode only)',
                'sizes are compared only for key types / group-exchange names the peer actually presents (nothing to compare otherwise)']
 MANIFEST = {
@@ -224,6 +224,8 @@ def cases(tier, seed):
         cs.append({'kind': 'random', 'seed': rng.randrange(1 << 30), 'n': 250})
     for i in range(40 if tier == 'quick' else 600):
         cs.append({'kind': 'cli', 'seed': rng.randrange(1 << 30), 'json': i % 2 == 0})
+    for i in range(6 if tier == 'quick' else 60):
+        cs.append({'kind': 'cli-multi', 'seed': rng.randrange(1 << 30), 'threads': [1, 2, 4][i % 3]})
     return cs
 
 
@@ -452,8 +454,63 @@ def run_cli(c):
     return viol, {'cli_runs': 1, 'model_fail': 1 if bad else 0, 'model_pass': 0 if bad else 1}
 
 
+def run_cli_multi(c):
+    """One policy, several peers in one -T -j run: every entry must equal the model's verdict for *that* peer (passed <=> no errors; errors name fields of that peer)."""
+    from harness import multi
+    rng = random.Random(c['seed'])
+    base = {'kex': ['curve25519-sha256', MARK], 'key': ['ssh-ed25519'], 'enc': ['aes256-gcm@openssh.com', 'aes128-ctr'], 'mac': ['hmac-sha2-256-etm@openssh.com', 'hmac-sha2-512']}
+    pol = base_pol(rng.choice([0, 1]))
+    for f in base:
+        pol[f] = list(base[f])
+    variants = []
+    extra = {'kex': 'diffie-hellman-group14-sha256', 'key': 'ecdsa-sha2-nistp256', 'enc': '3des-cbc', 'mac': 'hmac-md5'}
+    for f in rng.sample(list(base), 3):
+        v = {k: list(x) for k, x in base.items()}
+        v[f] = v[f] + [extra[f]]
+        variants.append(v)
+    variants.append({k: list(x) for k, x in base.items()})
+    rng.shuffle(variants)
+    variants.append({k: list(x) for k, x in base.items()})
+    d = runner.scratch_dir('c06m')
+    targets = []
+    viol, counters = [], {'cli_runs': 1, 'cli_multi_entries': 0, 'model_pass': 0, 'model_fail': 0}
+    try:
+        pf = os.path.join(d, 'p.txt')
+        with open(pf, 'w') as f:
+            f.write(policy_text(pol, 'multi'))
+        for i, v in enumerate(variants):
+            targets.append(multi.Target('v%d' % i, {'banner': 'SSH-2.0-OpenSSH_9.3', 'kex': audit.sym_kex(v['kex'], v['key'], v['enc'], v['mac']), 'hostkeys': {}, 'hostkey_default': None, 'gex': None}))
+        res = multi.run_multi(targets, c['threads'], 'json', extra=['-P', pf], timeout=120)
+        for t, v in zip(targets, variants):
+            peer = base_peer()
+            peer.update(v)
+            peer['banner'] = 'SSH-2.0-OpenSSH_9.3'
+            bad, dc = model(pol, peer)
+            docs = (res.get('docs') or {}).get('127.0.0.1:%d' % t.peer.port) or []
+            if not docs:
+                viol.append(_v('C06/cli-multi-entry-missing', 'no JSON entry for a target', err=res.get('json_error')))
+                continue
+            counters['cli_multi_entries'] += 1
+            counters['model_fail' if bad else 'model_pass'] += 1
+            doc = docs[0]
+            got = {classify(e['mismatched_field']) for e in doc.get('errors') or []}
+            if doc.get('passed') != (len(doc.get('errors') or []) == 0):
+                viol.append(_v('C06/passed-vs-errors:multi-target', 'passed is not equivalent to an empty error list for a target of a multi-target policy run', passed=doc.get('passed'), errors=sorted(got), threads=c['threads']))
+            if got != bad or doc.get('passed') != (not bad):
+                viol.append(_v('C06/cli-multi-verdict', 'the entry of a target in a multi-target policy run disagrees with the model for that peer', got=sorted(got), want=sorted(bad), passed=doc.get('passed')))
+            for e in doc.get('errors') or []:
+                f = {'Key exchanges': 'kex', 'Host keys': 'key', 'Ciphers': 'enc', 'MACs': 'mac'}.get(e['mismatched_field'])
+                if f and e.get('actual') != v[f]:
+                    viol.append(_v('C06/error-actual-of-other-peer', 'an error\'s actual value does not describe this peer', field=e['mismatched_field'], actual=e.get('actual'), this_peer=v[f]))
+    finally:
+        for t in targets:
+            t.stop()
+        runner.cleanup(d)
+    return viol, counters
+
+
 def run_case(c):
-    fn = {'single': run_single, 'pair': run_pair, 'sizes': run_sizes, 'random': run_random, 'cli': run_cli}[c['kind']]
+    fn = {'cli-multi': run_cli_multi, 'single': run_single, 'pair': run_pair, 'sizes': run_sizes, 'random': run_random, 'cli': run_cli}[c['kind']]
     viol, counters = fn(c)
     nontrivial = counters.get('model_pass', 0) + counters.get('model_fail', 0) > 0
     return {'violations': viol, 'counters': counters, 'nontrivial': nontrivial, 'sample': {'case': c, 'observed': counters}, 'sample_kind': c['kind']}
